@@ -438,3 +438,64 @@ def documents(draw, profile, max_units=None, max_blocks=5, allow=None):
         doc["header"] = inlines(1, "X")
         doc["footer"] = inlines(1, "X")
     return doc
+
+
+
+# ---- deterministic samples ------------------------------------------------------------------------------------------------------------------
+_RICH: dict = {}
+
+
+def option_combos(profile) -> list[dict]:
+    """Every combination of the renderer's option values (all of them when there are at most 64, otherwise the default plus one option changed at a time)."""
+    import itertools
+    opts = {k: list(dict.fromkeys(vs)) for k, vs in (profile.get("opts") or {}).items()}
+    keys = sorted(opts)
+    if not keys:
+        return [{}]
+    combos = list(itertools.product(*[opts[k] for k in keys]))
+    if len(combos) > 64:
+        default = tuple(opts[k][0] for k in keys)
+        combos = [default] + [default[:i] + (v,) + default[i + 1:] for i, k in enumerate(keys) for v in opts[k][1:]]
+    return [dict(zip(keys, c)) for c in combos]
+
+
+def rich_sample(profile, k: int = 4, key: str = "", strategy=None, feats_fn=None) -> list:
+    """k feature-rich documents of the profile, the same in every run (a fixed Hypothesis seed, independent of VERIF_SEED): the deterministic part of the checks crosses them
+    with every option combination, so that a renderer option meets a document it matters for by construction and not by the luck of a seed."""
+    import hashlib
+    import json
+    import hypothesis
+    from hypothesis import HealthCheck, Phase, given, settings
+    ck = (key or profile.get("ext", ""), k, id(strategy))
+    if ck in _RICH:
+        return _RICH[ck]
+    bag = []
+
+    @hypothesis.seed(20241004)
+    @settings(max_examples=150, database=None, deadline=None, suppress_health_check=list(HealthCheck), phases=[Phase.generate])
+    @given(strategy if strategy is not None else documents(profile))
+    def collect(d):
+        bag.append(d)
+    collect()
+
+    def feats(d):
+        if feats_fn is not None:
+            return feats_fn(d)
+        if "sheets" in d:       # a cell grid: its shape and cell types stand in for features
+            return {f"sheets={len(d['sheets'])}"} | {f"{len(sh['rows'])}x{len(sh['rows'][0]) if sh['rows'] else 0}" for sh in d["sheets"]} | {c["t"] for sh in d["sheets"] for r in sh["rows"] for c in r if c}
+        return features(d)
+
+    def score(d):
+        return (len(feats(d)), hashlib.sha256(json.dumps(d, sort_keys=True, default=str).encode()).hexdigest())
+    bag.sort(key=score, reverse=True)
+    out, seen = [], set()
+    for d in bag:
+        f = frozenset(feats(d))
+        if f in seen:
+            continue
+        seen.add(f)
+        out.append(d)
+        if len(out) == k:
+            break
+    _RICH[ck] = out
+    return out
